@@ -32,13 +32,13 @@ CFG = {
                     "runes delivered by the parser are valid code points (string([]rune) is the identity)"],
     "level_text": "Proved: (1) the bodies of handleSequence, parseMouseEvent and Resize, regenerated from the source on every run as terms of the "
                   "GoBody statement language and EXECUTED by an interpreter, are the hand model for all decoders, states and sequences "
-                  "(handleSequence_body_eq_model, parseMouse_body_eq_model: same new state, same effects in order, each send written as the LTS "
+                  "(handleSequence_body_eq_model, parseMouse_body_eq_model, parseColorReply_body_eq_model, events_exact_body: same new state, same effects in order, each send written as the LTS "
                   "assumes - blocking post / non-blocking post / select+default / select+time-out -, same early returns and breaks, a panic "
                   "exactly where the model has one; bodies_fully_recognised, body_never_stuck, body_sends_never_bare; lts_input_is_body: the "
                   ".input label of the LTS is a run of that body); (2) over that model and the LTS of the input goroutine, event queue, reply "
                   "channels and requesters: mouse_exact, handle_total, replies_internal, events_exact, never_wedges, and for ALL runs never_stuck "
                   "(an internal move is enabled whenever effects are pending, in every reachable state), internal_runs_terminate / "
-                  "every_internal_run_settles (every maximal internal schedule ends idle within 2*pending+queued moves), stream_reaches_end "
+                  "every_internal_run_settles (every maximal internal schedule ends idle within 2*pending+queued moves), requesters_do_not_add_work (requester labels change neither pending effects nor queue: any interleaving with requesters has at most that many internal moves), stream_reaches_end "
                   "(every stream is consumed to its end from every reachable state), flow_preserved / input_never_lost / "
                   "input_never_lost_any_requester / input_never_lost_with_cpr, flag_lowered_only_by; (3) for the colour requesters (F303 repaired) "
                   "query_reply_exact: for every prefix and every 1-4 digit channel the answer is the XParseColor reading of the reply, "
